@@ -385,7 +385,27 @@ def run(ctx):
             raise MachineryError(f"{failed} of {total} {kind} cases could not even be run: the materialiser is broken")
     if set(stats["by_kind"]) != set(KINDS):
         raise MachineryError(f"no history replayed for some kind: {stats['by_kind']}")
-    ctx.evaluations = stats["regenerations"]
+    # results that carry their own filter settings (RREFinder): saved hits reused under other settings
+    filter_cases = []
+    settings = [(250, 50), (300, 50), (350, 50), (250, 70), (300, 70), (200, 50), (250, 40)]
+    for number in range(60 if ctx.quick else 1500):
+        old = rng.choice([(250, 50), (250, 50), (200, 40)])
+        pool = [(sc, ln) for sc in (200, 260, 275, 300, 340, 380) for ln in (40, 55, 60, 90) if sc >= old[0] and ln >= old[1]]
+        hits = [{"sc": sc, "len": ln} for sc, ln in (rng.choice(pool) for _ in range(rng.randrange(1, 5)))]
+        new = rng.choice(settings)
+        filter_cases.append({"id": 10 ** 7 + number, "hits": hits, "old": {"cut": old[0], "minlen": old[1]},
+                             "new": {"cut": new[0], "minlen": new[1]}})
+    filter_events = U.observe_refilter_many(filter_cases)
+    ctx.validate("ReuseFilter_Trace", filter_events,
+                 {case["id"]: {"op": "refilter", "input": {k: case[k] for k in ("hits", "old", "new")},
+                               "call": f"harness.reuse.observe_refilter({case!r})  # RREFinderResults saved under old, "
+                                       "rrefinder.regenerate_previous_results under new, add_to_record on a fresh record",
+                               "observed": event["out"], "sampled": True,
+                               "features": sorted({"stricter" if (case["new"]["cut"] > case["old"]["cut"] or case["new"]["minlen"] > case["old"]["minlen"]) else "not_stricter",
+                                                   "looser" if (case["new"]["cut"] < case["old"]["cut"] or case["new"]["minlen"] < case["old"]["minlen"]) else "not_looser"})}
+                  for case, event in zip(filter_cases, filter_events)})
+    ctx.notes["refilter_cases"] = len(filter_cases)
+    ctx.evaluations = stats["regenerations"] + len(filter_cases)
     ctx.notes["phase_seconds"] = {"model_checking": round(clock["model_checking"] - clock["start"], 1),
                                   "building_cases": round(clock["cases_built"] - clock["model_checking"], 1),
                                   "replaying_on_real_objects": round(clock["replay_seconds"], 1),
@@ -426,6 +446,12 @@ def observe_verbose(items):
 
 def replay(ctx, record):
     from .. import reuse as U  # pylint: disable=import-outside-toplevel
+    if record["op"] == "refilter":
+        case = dict(record["input"], id=0)
+        event = U.observe_refilter(case)
+        ctx.validate("ReuseFilter_Trace", [event], {0: {"op": "refilter", "input": record["input"], "observed": event["out"]}})
+        ctx.failures = [f for f in ctx.failures if f["clause"] == record["clause"]]
+        return
     U.write_pfam_database(ctx.workdir + "/c11_databases")
     data = record["input"]
     item = {"id": 0, "kind": data["kind"], "env": data["env"], "case": data["case"], "hist": data["hist"], "from": data["from"],
